@@ -210,3 +210,81 @@ class Restricted:
     open: Optional[OpenChild] = field(default=None, metadata={"type": "Element"})
     other: List[object] = field(default_factory=list, metadata={"type": "Wildcard", "namespace": "##other"})
     oattrs: Dict[str, str] = field(default_factory=dict, metadata={"type": "Attributes", "namespace": "urn:attr"})
+
+
+# --- a QName-valued enumeration (the same lexical value means different members under different prefix bindings) ------------
+
+from enum import Enum  # noqa: E402
+
+from xml.etree.ElementTree import QName  # noqa: E402
+
+
+class QE(Enum):
+    A = QName("{urn:a}x")
+    B = QName("{urn:b}x")
+
+
+@dataclass
+class QDoc:
+    class Meta:
+        name = "qdoc"
+        namespace = "urn:t"
+
+    q: Optional[QE] = field(default=None, metadata={"type": "Element"})
+
+
+@dataclass
+class Addr:
+    """A class with a namespace of its own, used by a nillable field of one model and a plain field of another."""
+
+    class Meta:
+        global_type = False
+        namespace = "urn:t"
+
+    p: Optional[str] = field(default=None, metadata={"type": "Element"})
+
+
+@dataclass
+class NilHolder:
+    class Meta:
+        name = "nilholder"
+        namespace = "urn:t"
+
+    c: Optional[Addr] = field(default=None, metadata={"type": "Element", "nillable": True})
+
+
+@dataclass
+class PlainHolder:
+    class Meta:
+        name = "plainholder"
+        namespace = "urn:t"
+
+    c: Optional[Addr] = field(default=None, metadata={"type": "Element"})
+
+
+# --- a base class and an UNRELATED class that carries the name a later-imported subclass of the base will also carry ----------
+
+@dataclass
+class UnrelatedExtZ:
+    class Meta:
+        name = "extz"
+        namespace = "urn:t"
+
+    u: Optional[str] = field(default=None, metadata={"type": "Element"})
+
+
+@dataclass
+class BaseZ:
+    class Meta:
+        global_type = False
+
+    v: Optional[str] = field(default=None, metadata={"type": "Element"})
+
+
+@dataclass
+class HolderZ:
+    class Meta:
+        name = "holderz"
+        namespace = "urn:t"
+
+    b: Optional[BaseZ] = field(default=None, metadata={"type": "Element"})
